@@ -35,6 +35,8 @@ SEQ_LENGTHS = (1, 2, 3)
 REL_TOL = 1e-6
 EXEC_TIMEOUT_S = int(os.environ.get("VERIF_C02_EXEC_TIMEOUT", "60"))
 SMT_TIMEOUT_S = float(os.environ.get("VERIF_SMT_TIMEOUT", "20"))
+POINT_TIMEOUT_S = int(os.environ.get("VERIF_C02_POINT_TIMEOUT", "20"))
+FN_BOUNDED_BUDGET_S = int(os.environ.get("VERIF_C02_BOUNDED_BUDGET", "120"))
 NF_TIMEOUT_S = int(os.environ.get("VERIF_C02_NF_TIMEOUT", "15"))
 WORKER_MEM_GB = float(os.environ.get("VERIF_C02_MEM_GB", "6"))
 
@@ -1501,7 +1503,8 @@ def bounded_function(c: Contract, law_attr, eq, assoc, rng, npoints: int) -> dic
     """Call the DECORATED real function at seeded random magnitudes and unit prefixes; check the law residual."""
     _fill_targets(c, assoc)
     accepted, refused, failures, errors = 0, 0, [], []
-    tries = illcond = 0
+    tries = illcond = timeouts = 0
+    t_start = time.time()
     seqs = [p for p in c.params if _is_seq_param(p)]
     while accepted < npoints and tries < npoints * 12:
         tries += 1
@@ -1515,11 +1518,21 @@ def bounded_function(c: Contract, law_attr, eq, assoc, rng, npoints: int) -> dic
                     v = float(rng.randint(1, 6))
                 return _entry(p, v, rng)
             entries[p.name] = ("list", [one() for _ in range(n)]) if p in seqs else one()
+        if time.time() - t_start > FN_BOUNDED_BUDGET_S:
+            errors.append(f"time budget of {FN_BOUNDED_BUDGET_S}s for the bounded stand-in exhausted")
+            break
         try:
-            kwargs = {p.name: _build_arg(p, entries[p.name]) for p in c.params}
-            result = c.decorated(**kwargs)
+            with time_limit(POINT_TIMEOUT_S):
+                kwargs = {p.name: _build_arg(p, entries[p.name]) for p in c.params}
+                result = c.decorated(**kwargs)
         except (ValueError, ZeroDivisionError) as e:
             refused += 1
+            continue
+        except _Timeout:
+            timeouts += 1
+            errors.append(f"call did not return within {POINT_TIMEOUT_S}s")
+            if timeouts >= 2:
+                break
             continue
         except Exception as e:  # noqa: BLE001
             refused += 1
@@ -1527,11 +1540,18 @@ def bounded_function(c: Contract, law_attr, eq, assoc, rng, npoints: int) -> dic
                 errors.append(f"{type(e).__name__}: {str(e)[:120]}")
             continue
         try:
-            pairs, n_by_base = _numeric_pairs(c, assoc, kwargs, result)
-            ok, lv, rv, detail = numeric_residual(eq, pairs, n_by_base, c.op)
-            if not ok and c.op == "" and _ill_conditioned(eq, pairs, n_by_base):
-                illcond += 1
-                continue
+            with time_limit(POINT_TIMEOUT_S):
+                pairs, n_by_base = _numeric_pairs(c, assoc, kwargs, result)
+                ok, lv, rv, detail = numeric_residual(eq, pairs, n_by_base, c.op)
+                if not ok and c.op == "" and _ill_conditioned(eq, pairs, n_by_base):
+                    illcond += 1
+                    continue
+        except _Timeout:
+            timeouts += 1
+            errors.append(f"residual not evaluated within {POINT_TIMEOUT_S}s")
+            if timeouts >= 2:
+                break
+            continue
         except Exception as e:  # noqa: BLE001
             errors.append(f"residual not evaluable: {type(e).__name__}: {str(e)[:160]}")
             if len(errors) > 6:
